@@ -161,6 +161,39 @@ def skip (b : Bytes) : Res Unit :=
   | some (_, r) => .ok () r
   | none => .err
 
+/-! ### the stream `Reader.Skip` and the ext32 format
+
+msgp v1.1.9's stream `Skip` fails on every value written in the ext32 format (lead byte `0xc9`): its
+fast path peeks five bytes and then asks `getSize` for the six-byte ext32 header, `ErrShortBytes`.
+`hasExt32 b`: the first value of `b` contains an ext32 token at any depth (mirrors `parseF` / `parseN`;
+lemmas in `Msgp/Ext32.lean`).  Exact whenever the skipped value is buffered in full, i.e. for inputs up to
+the reader's 4 KiB buffer read from one chunk. -/
+
+mutual
+def ext32F : Nat → Bytes → Bool
+  | 0, _ => false
+  | f+1, b =>
+    if b.head? = some 0xc9 then true else
+    match header b with
+    | some (.arr n, r) => ext32N f n r
+    | some (.map n, r) => ext32N f (2*n) r
+    | _ => false
+def ext32N : Nat → Nat → Bytes → Bool
+  | 0, _, _ => false
+  | _+1, 0, _ => false
+  | f+1, n+1, b =>
+    ext32F f b || (match parseF f b with
+      | some (_, r) => ext32N f n r
+      | none => false)
+end
+
+/-- the first value of `b` holds an ext32 token -/
+def hasExt32 (b : Bytes) : Bool := ext32F (2 * b.length + 2) b
+
+/-- `Skip` on the given path: `msgp.Skip(bytes)` or `(*Reader).Skip()` -/
+def skipP (p : Path) (b : Bytes) : Res Unit :=
+  if p = .stream ∧ hasExt32 b = true then .err else skip b
+
 /-! ### `ReadIntfBytes` / `Reader.ReadIntf`
 
 The result is kept as the spec object that was read.  Deviations from "any object":
